@@ -3,6 +3,8 @@ import os, sys
 sys.path.insert(0, os.path.join(os.path.dirname(__file__), '..', '..', 'tools'))
 import vlib
 from vlib import Job
+sys.path.insert(0, os.path.join(os.path.dirname(__file__), '..', 'bx'))
+import bxcfg
 
 PID = 'C01'
 HERE = os.path.dirname(os.path.abspath(__file__))
@@ -133,6 +135,9 @@ FMT_CFG = {
 FMT_ROOTS = ['op_format::next', '_ZN9op_format5stateC1Ev']
 
 
+BX_DROPPED = {}
+
+
 def jobs(tier):
     inc = [OUT, os.path.join(vlib.VERIF, 'props'), HERE]
     asrc = [os.path.join(HERE, 'alt_harness.c'), os.path.join(OUT, 'alt_bodies.c')]
@@ -156,26 +161,30 @@ def jobs(tier):
              note='ALT with 3 branches (round-robin order differs from slot order), 0..1 results per branch and input, 2 inputs in one feed'))
         J.append(Job('bounded_alt_refeed_2inputs', asrc, 'hb_alt', includes=inc, defines=['ALT_MAXFEED=2'], kind='bounded', unwind=17, timeout=3000,
                      cbmc_args=AUW, inputs=['g_nfeed'], note='as bounded_alt_refeed with 1-2 inputs before the first exhaustion'))
+    J += bxcfg.jobs(vlib, Job, OUT, ['capture', 'close_star', 'close_plus', 'or', 'cat'], control=True)
     return J
 
 
 LEVEL = 'other'      # bounded stand-ins only: never reported as proof
 TRUSTED = ['tools/cxx2c.py lowering']
 ASSUMPTIONS = [
+    'build_exec (build.cc): only the cases IFELSE ALT SCOPE CAPTURE CLOSE_STAR CLOSE_PLUS OR CAT of its switch are lowered (cxx2c keep_cases; the other cases are dropped and reaching one is a failed obligation); the recursive call is an ASSUMED contract with a ghost call log (records tree, layout, scope, upstream; never shrinks the layout -- re-established for the lowered cases), operator constructors that take a layout reserve an arbitrary non-empty range at its end (contract of layout::reserve, C13), layout::add_union by its C13 contract (props/bx/bx_model.h)',
     'stacks are handles naming their contents, copying is the identity, moving a unique_ptr out of an lvalue nulls it (props/c01/alt_model.h); std::vector, std::all_of, scon::get/reset are modelled; the lambda given to std::all_of is lowered and called by the model',
     'each branch is an abstract well-behaved operator chain (props/c01/alt_model2.h): per input it yields 0..2 stacks and then pulls its source (the REAL op_tine::next for ALT, its origin for ||); what real branch operators do is not covered',
     'BOUNDED: 2 branches, <= 2 results per branch and input, <= 2 inputs before and 1 after an exhaustion',
     'op_format::next: the stringer chain (the directives) is an abstract producer of 0..2 strings per input (props/c01/fmt_model*.h); stringer_op/stringer_lit themselves are not covered',
-    'SLICE of C01: concatenation, [ ], ?( ), let, if-then-else, closures (C10), the stringer operators and build.cc wiring are NOT covered by this check (op_subx: C04; op_tr_closure: C10)',
+    'SLICE of C01: concatenation, [ ], ?( ), let, if-then-else, closures (C10), the stringer operators and the build.cc wiring of the remaining constructs (FORMAT, SUBX_EVAL, BLOCK, READ, BIND, builtins; IFELSE is checked under C13, ALT/SCOPE under C03) are NOT covered by this check (op_subx: C04; op_tr_closure: C10)',
 ]
 EXPLANATION = 'Bounded check of ALT and || on the real operator code; see DESIGN.md section 4 C01.'
 
 
 def spec_files():
-    return [os.path.join(HERE, f) for f in ('alt_harness.c', 'or_harness.c', 'fmt_harness.c', 'alt_model.h', 'alt_model2.h', 'fmt_model.h', 'fmt_model2.h')]
+    return [os.path.join(vlib.VERIF, 'props', 'bx', 'bx_harness.c'), os.path.join(vlib.VERIF, 'props', 'bx', 'bx_model.h')] + [os.path.join(HERE, f) for f in ('alt_harness.c', 'or_harness.c', 'fmt_harness.c', 'alt_model.h', 'alt_model2.h', 'fmt_model.h', 'fmt_model2.h')]
 
 
 def prepare(tier):
+    global BX_DROPPED
+    bxw, BX_DROPPED = bxcfg.prepare(vlib, OUT)
     a = vlib.extract('alt', 'libzwerg/op.cc', ALT_CFG, ALT_ROOTS, OUT)
     have = any(f['c_name'] == 'tine_slot_is_null' for f in a.report['functions'])
     with open(os.path.join(OUT, 'alt_features.h'), 'w') as f:
@@ -183,7 +192,7 @@ def prepare(tier):
     o = vlib.extract('or', 'libzwerg/op.cc', OR_CFG, OR_ROOTS, OUT)
     f = vlib.extract('fmt', 'libzwerg/op.cc', FMT_CFG, FMT_ROOTS, OUT)
     o.report['functions'] += f.report['functions']
-    return {'unit': 'libzwerg/op.cc (op_merge, op_tine, op_or, op_format)', 'functions': a.report['functions'] + o.report['functions']}
+    return {'build_exec_cases_lowered': BX_DROPPED.get('kept'), 'build_exec_cases_dropped_by_extraction': BX_DROPPED.get('dropped'), 'build_exec_functions': bxw.report['functions'], 'unit': 'libzwerg/op.cc (op_merge, op_tine, op_or, op_format)', 'functions': a.report['functions'] + o.report['functions']}
 
 
 QUERIES = [('(5, 6, 7) let A := (1, 2); A', '<5|1> <5|2> <6|1> <6|2> <7|1> <7|2>'), ('(5, 6) "%( (1, 2) %)"', '<5|1> <5|2> <6|1> <6|2>'),
